@@ -16,7 +16,7 @@ import (
 // existing model driver drv_muxer replays the writes; what concerns only the client travels in extra keys the
 // driver ignores:
 //
-//	start … cl=<n> at=<i,…> pl=<mv|s<k>,…> ntpj=0|1     client i starts right before the at[i]-th `w` op and reads
+//	start … cl=<n> at=<i,…> pl=<mv|s<k>,…> ad=<‰,…>   client i starts ad[i] per mille into the pause before the at[i]-th `w` op and reads
 //	                                                    index.m3u8 (mv) or the media playlist of stream k
 //	track … name=<s|-> lang=<s|-> def=0|1 step=<ticks>
 //
@@ -35,6 +35,7 @@ type c9GenTrack struct {
 	count int
 	burst int // audio: units per write burst (1 = regular)
 	multi bool
+	all3  bool // audio-led multi-AU mode: every call carries exactly three AUs (call starts fall on whole milliseconds)
 }
 
 func (e2eSlice) Gen(r *rand.Rand, _ int, tier string) ([]string, []string) {
@@ -184,9 +185,32 @@ func (e2eSlice) Gen(r *rand.Rand, _ int, tier string) ([]string, []string) {
 		}
 	}
 
+	// AUDIO-LED fMP4 / LL with true AAC timing and 2-3 AUs per WriteMPEG4Audio call: every AU is a random-access
+	// sample, so segments are cut on ANY AU of a call - the NTP of a segment (EXT-X-PROGRAM-DATE-TIME) is then the
+	// per-AU NTP `ntp + i*1024/sampleRate` the muxer derives, not the call's. 96 kHz (10.67 ms per AU; three AUs =
+	// exactly 32 ms) keeps the case short; the thorough tier also uses 48 kHz.
+	audioLed := false
+	audioLedAUs := 0
+	if variant != "ts" && !hasVideo && r.Intn(2) == 0 {
+		audioLed = true
+		sparse = false
+		sr := 96000
+		if tier == "thorough" && r.Intn(3) == 0 {
+			sr = 48000
+		}
+		t0 := tracks[0]
+		t0.codec, t0.rate, t0.sr, t0.step, t0.multi, t0.burst = "aac", sr, sr, 1024, true, 1
+		t0.all3 = r.Intn(10) < 7
+		audioLedAUs = []int{4, 5, 4, 5, 2, 4}[r.Intn(6)] // AUs per segment; calls of three (or 2-3): cuts fall inside the calls
+		tags = append(tags, "audio-led-multi-au")
+	}
+
 	segDurNs := int64(gop) * fv * 1000000 / 90
 	if !hasVideo {
 		segDurNs = fv * 1000000 / 90 * int64(2+r.Intn(6))
+	}
+	if audioLed {
+		segDurNs = int64(audioLedAUs) * 1024 * 1000000000 / int64(tracks[0].sr)
 	}
 	var segMin int64
 	switch r.Intn(6) {
@@ -201,10 +225,13 @@ func (e2eSlice) Gen(r *rand.Rand, _ int, tier string) ([]string, []string) {
 	default:
 		segMin = segDurNs
 	}
+	if audioLed {
+		segMin = segDurNs - 1000 // a hair below k AU durations: a segment = exactly k AUs
+	}
 	if segMin < 1000000 {
 		segMin = 1000000
 	}
-	if !sparse {
+	if !sparse && !audioLed {
 		// every segment shall hold data of every track: at least three units of the slowest non-leading track
 		for i, t := range tracks {
 			if i != lead {
@@ -227,23 +254,25 @@ func (e2eSlice) Gen(r *rand.Rand, _ int, tier string) ([]string, []string) {
 		tags = append(tags, "dir")
 	}
 
-	// ---- time base
-	var baseSec float64
+	// ---- time base (whole milliseconds; NTP = ntpBase + floor(media ms) in integer arithmetic, so that NTP is EXACTLY
+	// linear in DTS whenever the leading track's units start on whole milliseconds)
+	var baseMs int64
 	switch r.Intn(8) {
 	case 0:
-		baseSec = -float64(r.Intn(9)) - r.Float64()*0.7 - 0.05 // negative start (un-offset base time < 0)
+		baseMs = -int64(r.Intn(9))*1000 - int64(r.Intn(700)) - 50 // negative start (un-offset base time < 0)
 		tags = append(tags, "negative-start")
 	case 1:
-		baseSec = float64(r.Intn(1 << 20))
+		baseMs = int64(r.Intn(1<<20)) * 1000
 	case 2:
-		baseSec = 95443.6 + float64(r.Intn(200))/1000 // the 33-bit wrap at 90 kHz (95443.717 s) inside the case
+		baseMs = 95443600 + int64(r.Intn(200)) // the 33-bit wrap at 90 kHz (95443.717 s) inside the case
 		tags = append(tags, "wrap33")
 	default:
-		baseSec = float64(r.Intn(100)) + float64(r.Intn(1000))/1000
+		baseMs = int64(r.Intn(100))*1000 + int64(r.Intn(1000))
 	}
-	skew := r.Intn(6) == 0 && !sparse
+	baseSec := float64(baseMs) / 1000
+	skew := r.Intn(6) == 0 && !sparse && !audioLed
 	for _, t := range tracks {
-		t.next = int64(baseSec * float64(t.rate))
+		t.next = c9FloorDiv(baseMs*int64(t.rate), 1000)
 		if skew && r.Intn(2) == 0 {
 			t.next += int64(r.Intn(t.rate/25+1)) - int64(t.rate/50) // tracks start up to 20 ms apart
 		}
@@ -252,11 +281,11 @@ func (e2eSlice) Gen(r *rand.Rand, _ int, tier string) ([]string, []string) {
 		tags = append(tags, "track-skew")
 	}
 	ntpBase := int64(1600000000000) + int64(r.Intn(1000000))
-	jumble := r.Intn(8) == 0
+	jumble := r.Intn(8) == 0 && !audioLed
 	if jumble {
 		tags = append(tags, "jumbled-interleaving")
 	}
-	jitter := r.Intn(4) == 0
+	jitter := r.Intn(4) == 0 && !audioLed
 	midGOP := r.Intn(5) == 0 && hasVideo
 
 	// at least nine segments in the paced part (a non-LL client starts three segments behind the live edge)
@@ -290,7 +319,8 @@ func (e2eSlice) Gen(r *rand.Rand, _ int, tier string) ([]string, []string) {
 	var segDone []int // segDone[k] = number of w ops after which k+1 segments are complete (estimate)
 	segStart := -1.0
 	leadAUs := 0
-	preSec := 0.5 + float64(r.Intn(150))/1000
+	preMs := int64(500 + r.Intn(150))
+	preSec := float64(preMs) / 1000
 	preEnd := baseSec + preSec // audio-only; with video: preSec after the first random-access unit (set below)
 	endSec := preEnd + float64(spanMs)/1000
 	skip := -1
@@ -323,7 +353,7 @@ func (e2eSlice) Gen(r *rand.Rand, _ int, tier string) ([]string, []string) {
 			if skip < 0 && now >= preEnd-1e-9 && (best == lead || !hasVideo) && t.count > leadIn {
 				skip = len(ws)
 			}
-			ntp := ntpBase + int64((now-baseSec)*1000)
+			ntp := ntpBase + c9FloorDiv(pts*1000, int64(t.rate)) - baseMs
 			if ntp < 0 {
 				ntp = 0
 			}
@@ -377,6 +407,16 @@ func (e2eSlice) Gen(r *rand.Rand, _ int, tier string) ([]string, []string) {
 				if t.multi && r.Intn(2) == 0 {
 					n = 2 + r.Intn(2)
 				}
+				if audioLed && best == 0 {
+					switch {
+					case t.count == 0:
+						n = 1 // the unit before the hole
+					case t.all3:
+						n = 3
+					default:
+						n = 2 + r.Intn(2)
+					}
+				}
 				if t.codec == "opus" && t.step == 120 && r.Intn(3) == 0 {
 					n = 2
 				}
@@ -405,7 +445,7 @@ func (e2eSlice) Gen(r *rand.Rand, _ int, tier string) ([]string, []string) {
 					}
 				}
 				if !hasVideo && t.count == 0 {
-					step += int64(preSec * float64(t.rate)) // audio-only: the hole that makes the first segment long
+					step += preMs * int64(t.rate) / 1000 // audio-only: the hole that makes the first segment long
 				}
 				if best == lead { // audio-only muxer
 					leadAUs++
@@ -432,7 +472,7 @@ func (e2eSlice) Gen(r *rand.Rand, _ int, tier string) ([]string, []string) {
 
 	// ---- client schedules
 	nCl := 1 + r.Intn(3)
-	var at, pl []string
+	var at, pl, ad []string
 	nStreams := len(tracks)
 	if variant == "ts" {
 		nStreams = 1
@@ -462,6 +502,7 @@ func (e2eSlice) Gen(r *rand.Rand, _ int, tier string) ([]string, []string) {
 			a = len(ws)
 		}
 		at = append(at, strconv.Itoa(a))
+		ad = append(ad, strconv.Itoa(r.Intn(1001)))
 		if r.Intn(3) == 0 {
 			pl = append(pl, "s"+strconv.Itoa(r.Intn(nStreams)))
 		} else {
@@ -484,8 +525,8 @@ func (e2eSlice) Gen(r *rand.Rand, _ int, tier string) ([]string, []string) {
 		}
 	}
 
-	ops := []string{fmt.Sprintf("start v=%s segcount=%d segmin=%d partmin=%d maxsize=%d dir=%s cl=%d at=%s pl=%s skip=%d",
-		variant, segCount, segMin, partMin, 50*1024*1024, b01(dir), nCl, strings.Join(at, ","), strings.Join(pl, ","), skip)}
+	ops := []string{fmt.Sprintf("start v=%s segcount=%d segmin=%d partmin=%d maxsize=%d dir=%s cl=%d at=%s pl=%s ad=%s skip=%d",
+		variant, segCount, segMin, partMin, 50*1024*1024, b01(dir), nCl, strings.Join(at, ","), strings.Join(pl, ","), strings.Join(ad, ","), skip)}
 	for _, t := range tracks {
 		nm, lg := t.name, t.lang
 		if nm == "" {
@@ -513,3 +554,11 @@ func c9Intn(r *rand.Rand, n int) int {
 	return r.Intn(n)
 }
 
+
+func c9FloorDiv(a, b int64) int64 {
+	q := a / b
+	if (a%b != 0) && ((a < 0) != (b < 0)) {
+		q--
+	}
+	return q
+}
